@@ -13,13 +13,116 @@ fn gen(src: &mut Src, tier: Tier) -> Case {
 
 /// themes: the sharp regions listed in DESIGN 2.5
 pub fn gen_themed(src: &mut Src, tier: Tier) -> Case {
-    let fl = Fl::gen(src);
+    let mut fl = Fl::gen(src);
     let alpha = gen_alphabet(src);
     let mut cfg = GenCfg::full(fl, alpha.clone());
     cfg.max_depth = 3;
     let a = |src: &mut Src, cfg: &GenCfg| Node::Lit(gen_char(src, cfg));
     let mut forced_hay: Option<String> = None;
-    let node = match src.below(13) {
+    let node = match src.below(18) {
+        17 => {
+            // v-mode string set at the very start under i, on a haystack that re-spells one of its strings with
+            // arbitrary members of each character's equivalence class (first bytes of the prefilter)
+            fl.mode = Mode::V;
+            fl.i = true;
+            cfg = GenCfg::full(fl, alpha.clone());
+            cfg.max_depth = 3;
+            let strs: Vec<Vec<u32>> = (0..1 + src.below(3)).map(|_| (0..2 + src.below(2)).map(|_| gen_char(src, &cfg)).collect()).collect();
+            let set = Node::ClassSet(Cs { neg: false, kind: CsKind::Union, ops: vec![CsOp::Q(strs.clone())] });
+            let pick = src.pick(&strs).clone();
+            let resp: Vec<u32> = pick
+                .iter()
+                .map(|c| {
+                    let mut p = super::c12::partners(*c, true);
+                    p.push(*c);
+                    *src.pick(&p)
+                })
+                .collect();
+            let mut h: Vec<u32> = (0..src.below(3)).map(|_| gen_char(src, &cfg)).collect();
+            h.extend(resp);
+            let tail = if src.chance(1, 2) { a(src, &cfg) } else { Node::Empty };
+            if let Node::Lit(c) = &tail {
+                h.push(*c);
+            }
+            forced_hay = Some(cps_to_string(&h));
+            Node::Cat(vec![set, tail])
+        }
+        16 => {
+            // a backreference at the very start whose group was captured by a lookaround: (?<=(X))\1Y, (?=(X))\1Y
+            let x = a(src, &cfg);
+            let y = a(src, &cfg);
+            let behind = src.chance(1, 2);
+            let look = Node::Look { behind, neg: false, body: Box::new(Node::Group { name: None, body: Box::new(x.clone()) }) };
+            let (xc, yc) = match (&x, &y) {
+                (Node::Lit(xc), Node::Lit(yc)) => (*xc, *yc),
+                _ => (0x61, 0x62),
+            };
+            let mut h: Vec<u32> = (0..src.below(3)).map(|_| gen_char(src, &cfg)).collect();
+            h.extend([xc, xc, yc]);
+            forced_hay = Some(cps_to_string(&h));
+            Node::Cat(vec![look, Node::BackRef(0), y])
+        }
+        15 => {
+            // alternation of arms that all start with ^, some inside a (?m:) / (?-m:) scope
+            let arm = |src: &mut Src, cfg: &GenCfg| -> Node {
+                let body = Node::Cat(vec![Node::Bol, Node::Lit(gen_char(src, cfg))]);
+                match src.below(3) {
+                    0 => body,
+                    1 => Node::Mods { on: 2, off: 0, body: Box::new(body) },
+                    _ => Node::Mods { on: 0, off: 2, body: Box::new(body) },
+                }
+            };
+            let n = 2 + src.below(2);
+            let alt = Node::Alt((0..n).map(|_| arm(src, &cfg)).collect());
+            let mut h: Vec<u32> = vec![];
+            for _ in 0..src.range(1, 4) {
+                h.push(gen_char(src, &cfg));
+                if src.chance(1, 2) {
+                    h.push(*src.pick(&[0x0A, 0x0D, 0x2028]));
+                }
+            }
+            forced_hay = Some(cps_to_string(&h));
+            alt
+        }
+        14 => {
+            // lookbehind holding a capture and a counted loop over alternatives of different lengths: (?<=(X*)(?:B|AB){n,m})T
+            let xs = Node::Group { name: None, body: Box::new(Node::Quant { body: Box::new(if src.chance(1, 2) { Node::Dot } else { a(src, &cfg) }), min: 0, max: None, lazy: src.chance(1, 3), braces: false }) };
+            let (b1, b2) = (gen_char(src, &cfg), gen_char(src, &cfg));
+            let alt = Node::Alt(vec![Node::Lit(b1), Node::Cat(vec![Node::Lit(b2), Node::Lit(b1)])]);
+            let min = src.range(1, 3);
+            let max = min + src.range(0, 2);
+            let lp = Node::Quant { body: Box::new(Node::NonCap(Box::new(alt))), min, max: Some(max), lazy: src.chance(1, 3), braces: true };
+            let tail = if src.chance(1, 2) { Node::Eol } else { a(src, &cfg) };
+            let mut h: Vec<u32> = (0..src.below(3)).map(|_| gen_char(src, &cfg)).collect();
+            for _ in 0..src.range(1, 4) {
+                if src.chance(1, 2) {
+                    h.push(b2);
+                }
+                h.push(b1);
+            }
+            if let Node::Lit(c) = &tail {
+                h.push(*c);
+            }
+            forced_hay = Some(cps_to_string(&h));
+            Node::Cat(vec![Node::Look { behind: true, neg: false, body: Box::new(Node::Cat(vec![xs, lp])) }, tail])
+        }
+        13 => {
+            // lookbehind whose group has an alternative that refers to the group itself: (?<=X(A|\1BA)C)D
+            let (x, bch, c, d) = (gen_char(src, &cfg), gen_char(src, &cfg), gen_char(src, &cfg), gen_char(src, &cfg));
+            let any = if src.chance(1, 2) { Node::Esc(b'w') } else { Node::Dot };
+            let g = Node::Group { name: None, body: Box::new(Node::Alt(vec![any.clone(), Node::Cat(vec![Node::Quant { body: Box::new(Node::BackRef(0)), min: 0, max: Some(1), lazy: false, braces: false }, Node::Lit(bch), any])])) };
+            let g = if src.chance(1, 3) { Node::Quant { body: Box::new(g), min: 1, max: Some(2), lazy: src.chance(1, 2), braces: true } } else { g };
+            let lb = Node::Look { behind: true, neg: false, body: Box::new(Node::Cat(vec![Node::Lit(x), g, Node::Lit(c)])) };
+            let mut h: Vec<u32> = (0..src.below(2)).map(|_| gen_char(src, &cfg)).collect();
+            h.push(x);
+            if src.chance(2, 3) {
+                h.push(bch);
+            }
+            h.push(gen_char(src, &cfg));
+            h.extend([c, d]);
+            forced_hay = Some(cps_to_string(&h));
+            Node::Cat(vec![lb, Node::Lit(d)])
+        }
         12 => {
             // lookaround towers with a long literal in the innermost one, on a haystack that contains the literal:
             // (?<=X(?=LIT))y, (?=X(?<=LIT))y, (?<=(?<=LIT)X)y, (?=(?=LIT)X)y and their negated inner forms
